@@ -1,9 +1,10 @@
 """C17 — reported counts are exact and everything is reclaimed."""
-from props import engine_common
+from props import engine_common, engine2_common
 from props.c01 import FINISH
 
 THEOREMS = ["Slock.C17.reachable_counts", "Slock.C17.lockedCount_is_depth_census", "Slock.C17.C17_drain", "Slock.C17.C17_lcount_grant",
             "Slock.C17.C17_lcount_release", "Slock.C01.reachable_inv", "Slock.Engine.consts_match"]
+THEOREMS_ALL = THEOREMS + engine2_common.THEOREMS_C17R
 
 
 def run(ctx):
@@ -13,11 +14,17 @@ def run(ctx):
     if ctx.tier == "thorough":
         ctx.leanchecker("Slock.Properties.C17")
     engine_common.run_engine(ctx, ["C17:"], n_quick=3000, n_thorough=60000)
-    ctx.assumptions.append("KeyCount, lock-record reference counts and value-cell lifetime are checked by the monitor on the real engine (census after every op, drain, "
-                           "KeyCount back to baseline after 18 s), not proved: stage 1 of the model has no lazily freed records")
+    # records part: reference counts, KeyCount, reclamation (M-ENGINE stage 2 vs the real LockDB, snapshots include both refCounts and KeyCount)
+    engine2_common.run_c17_records(ctx)
+    ctx.assumptions.append("counters and census: M-ENGINE stage 1; KeyCount, lock-record / key-record reference counts and reclamation: M-ENGINE stage 2 (records with refCount, "
+                           "tombstones, lazy popping), tied by the E-seq differential (snapshots include refCounts and KeyCount) and cross-checked against stage 1 through abs on every "
+                           "operation; the drain theorem's hypothesis is 'queues empty' (stronger than 'no live hold or waiter'): that tombstones cannot outlive live entries is "
+                           "covered end to end by the *-after-drain monitors on the real engine")
     ctx.cov["rule"] = ("seeded sequences ending in an adaptive drain; census of the real managers (holders, waiters) after every operation and at every reply; "
                        "distinct_nontrivial = distinct sequences containing at least one grant")
 
 
 def replay(path):
+    if "engine2 " in open(path).read():
+        return engine2_common.replay_engine2("C17", path, ["C17:"])
     return engine_common.replay_engine("C17", path)
